@@ -232,7 +232,7 @@ def run_shard(ctx):
                 top = U.cls[f"{P}List"](items=(n,), origin=NO) if rng.random() < 0.7 else None
                 F.add(owner, n, top)
                 ctx.count("falsy_replacement_with_parent")
-                return ("replace_with", "first", n, [x], lambda: n.replace_with(x))
+                return ("replace_with_must_reject", "first", n, [x], lambda: n.replace_with(x))
             if kind == "transform_reused_visitor":
                 # one visitor object, used again after a transform of its was rejected; its rule for list holders edits the
                 # lists of the working copy it is given in place (harmless: a copy), a later rule raises
@@ -562,6 +562,9 @@ def run_shard(ctx):
                 break
             finally:
                 signal.setitimer(signal.ITIMER_REAL, 0)
+            if exc is None and opname == "replace_with_must_reject":
+                ctx.violation("replace_with-accepted-node-with-parent", "replace_with() accepted a replacement that already has a parent (documented: ASTNodeReplaceWithError)", {"receiver": desc(recv), "replacement": [desc(a) for a in args if hasattr(a, "detached")]})
+                break
             if exc is None:
                 ctx.count(f"not_rejected_{opname}")
                 if hasattr(res, "detached"):
